@@ -16,6 +16,7 @@ import (
 	"time"
 
 	kafka "github.com/segmentio/kafka-go"
+	gzipcodec "github.com/segmentio/kafka-go/compress/gzip"
 	"github.com/segmentio/kafka-go/protocol"
 	"github.com/segmentio/kafka-go/protocol/fetch"
 	"github.com/segmentio/kafka-go/protocol/findcoordinator"
@@ -52,6 +53,10 @@ type xCase struct {
 	IdleMs     int            `json:"idle_ms"`           // transport idle timeout
 	Sched      map[string]int `json:"sched"`             // schedule point -> yields
 	Barrier    bool           `json:"barrier,omitempty"` // conn mode: the goroutines issue their i-th calls at the same instant
+	// FailedWrite (conn mode): before anything else, one of the extra Conns is asked to write a message compressed with a codec
+	// that cannot be set up (gzip with a level that does not exist).  The call fails; what it leaves behind in the library's
+	// shared buffers must not matter to the calls that follow.
+	FailedWrite bool `json:"failed_write,omitempty"`
 }
 
 // barrier releases n goroutines together, round after round.  The waiters spin (there are at most as many as cores), so
@@ -284,6 +289,14 @@ func run(tb ev.TB, c xCase) (labels []string, nontrivial bool) {
 		defer connS.Close()
 		connS.SetDeadline(time.Now().Add(30 * time.Second))
 		var sMu sync.Mutex
+		if c.FailedWrite {
+			for i := 0; i < 2; i++ {
+				if _, err := connY.WriteCompressedMessages(&gzipcodec.Codec{Level: 42}, kafka.Message{Value: []byte("never written")}); err == nil {
+					ev.Inconclusive("c06/failed-write-succeeded")
+				}
+			}
+			labels = append(labels, "after_failed_compressed_write")
+		}
 		if c.DeadlineMs > 0 {
 			conn.SetDeadline(time.Now().Add(time.Duration(c.DeadlineMs) * time.Millisecond))
 		} else {
@@ -787,6 +800,9 @@ func genCase(t *rapid.T, mode string) xCase {
 		kinds = []string{"offset", "offsets2", "offsets2", "partitions", "write", "coordinator", "committed", "fetch", "fetchRecords", "fetchRecords"}
 	} else {
 		c.DeadlineMs = rapid.SampledFrom([]int{0, 0, 0, 30, 120}).Draw(t, "deadlineMs")
+	}
+	if mode == "conn" {
+		c.FailedWrite = rapid.IntRange(0, 3).Draw(t, "failedWrite") == 0
 	}
 	ng := rapid.IntRange(2, 8).Draw(t, "goroutines")
 	if mode == "transport" {
